@@ -304,7 +304,7 @@ type App struct {
 func (a *App) slow() {
 	if d := a.SlowNext.Swap(0); d > 0 {
 		a.env.Stat("fault_slow_callback")
-		time.Sleep(time.Duration(d))
+		simsync.SleepHoldingLocks(time.Duration(d))
 	}
 	a.mu.Lock()
 	var d time.Duration
@@ -315,7 +315,7 @@ func (a *App) slow() {
 	a.mu.Unlock()
 	if d > 0 {
 		a.env.Stat("fault_slow_callback")
-		time.Sleep(d)
+		simsync.SleepHoldingLocks(d)
 		a.mu.Lock()
 		a.SlowEnd = time.Now()
 		a.SlowDone++
@@ -400,7 +400,7 @@ func (a *App) ToAdmin(m *quickfix.Message, _ quickfix.SessionID) {
 		a.mu.Unlock()
 		if d > 0 {
 			a.env.Stat("fault_slow_outbound_callback")
-			time.Sleep(d)
+			simsync.SleepHoldingLocks(d)
 		}
 	}
 }
